@@ -63,6 +63,21 @@ def termlist_dense(sites, tl, jw=False):
     return D.terms_dense(sites, tl.terms, tl.strength, jw=jw)
 
 
+def second_order(rec, key, H, dense, t0, approxs=('I', 'II')):
+    """``make_U(t) = expm(t H) + O(t^2)``: the error at t0 is >= 3 times the error at t0/2 (unless both vanish).
+    Returns the errors at t0 per approximation."""
+    res = {}
+    for approx in approxs:
+        errs = []
+        for t, fct, args in ((t0, H.make_U, (approx,)), (t0 / 2, getattr(H, 'make_U_' + approx), ())):
+            UU = rec.guard(key % approx, fct, t, *args)
+            errs.append(np.nan if UU is None else float(np.abs(D.mpo_dense(UU) - scipy.linalg.expm(t * dense)).max()))
+        if UU is not None and (not np.isfinite(errs).all() or (errs[1] > 1e-11 and errs[0] / errs[1] < 3.0)):
+            rec(key % approx + ':order', 'error %.3g at t=%r and %.3g at t/2: not second order in t' % (errs[0], t0, errs[1]))
+        res[approx] = errs[0]
+    return res
+
+
 # ------------------------------------------------------------------------------------------------ finite battery
 
 def check_ops(case):
@@ -134,7 +149,7 @@ def check_ops(case):
     if all_id and not hc:
         ranges = [list(range(a, b + 1)) for a in range(L) for b in range(a, L)] + [[1, 0]]
         coefs = [(0.3, -2.0), (1.0, 0.5), (1.5j, 1.0 - 0.5j), (0., 2.)]  # every range with one pair, sites=[0] with all
-        for k, ((alpha, beta), sel) in enumerate([(coefs[k % 4], sel) for k, sel in enumerate(ranges)] + [(c, [0]) for c in coefs[1:]]):
+        for (alpha, beta), sel in [(coefs[k % 4], sel) for k, sel in enumerate(ranges)] + [(c, [0]) for c in coefs[1:]]:
             P = rec.guard('plus_identity', H.plus_identity, alpha, beta, sel)
             if P is not None and not close(D.mpo_dense(P), alpha * np.eye(len(Hd)) + beta * Hd):
                 rec('plus_identity:dense:N=%d' % len(sel), 'plus_identity(%r, %r, sites=%r) is not alpha + beta H' % (alpha, beta, sel))
@@ -159,18 +174,10 @@ def check_ops(case):
                     rec('group_sites:max_range', 'max_range=%r after group_sites(%d), a term has range %d' % (Hg.max_range, n, U.spec_range(spec)))
     # --- propagators
     if all_id and not hc:
-        onsite_only = all(len(t) == 1 for t in spec['terms'])
-        for t0, approx in itertools.product([0.05, 0.05j, 0.03 + 0.04j], ['I', 'II']):
-            errs = []
-            for t, via_wrapper in ((t0, True), (t0 / 2, False)):
-                UU = rec.guard('make_U_' + approx, H.make_U, t, approx) if via_wrapper else rec.guard('make_U_' + approx, getattr(H, 'make_U_' + approx), t)
-                errs.append(None if UU is None else float(np.abs(D.mpo_dense(UU) - scipy.linalg.expm(t * Hd)).max()))
-            if None in errs:
-                continue
-            if not np.isfinite(errs).all() or (errs[1] > 1e-11 and errs[0] / errs[1] < 3.0):
-                rec('make_U_%s:order' % approx, 'error %.3g at t=%r and %.3g at t/2: not second order in t' % (errs[0], t0, errs[1]))
-            if approx == 'II' and onsite_only and errs[0] > 1e-12:
-                rec('make_U_II:onsite-not-exact', 'U_II of a sum of onsite terms has error %.3g' % errs[0])
+        for t0 in (0.05, 0.05j, 0.03 + 0.04j):
+            errs = second_order(rec, 'make_U_%s', H, Hd, t0)
+            if all(len(t) == 1 for t in spec['terms']) and not errs['II'] <= 1e-12:
+                rec('make_U_II:onsite-not-exact', 'U_II of a sum of onsite terms has error %.3g' % errs['II'])
     return rec
 
 
@@ -223,16 +230,6 @@ def _window(spec, H):
     return spec['L'] + 2 * (spec['L'] if H.max_range is None or H.max_range == np.inf else H.max_range)
 
 
-def _second_order(rec, key, S, dense, ts=(0.04j, 0.02j)):
-    for approx in ('I', 'II'):
-        errs = []
-        for t in ts:
-            UU = rec.guard('%s:make_U_%s' % (key, approx), S.make_U, t, approx)
-            errs.append(np.nan if UU is None else float(np.abs(D.mpo_dense(UU) - scipy.linalg.expm(t * dense)).max()))
-        if UU is not None and (not np.isfinite(errs).all() or (errs[1] > 1e-11 and errs[0] / errs[1] < 3.0)):
-            rec('%s:make_U_%s:order' % (key, approx), 'errors %r at t=%r: not second order in t' % (errs, ts))
-
-
 def check_pair(case):
     """Sum, overlap, distance and equality test of two MPOs on the same chain."""
     s1, s2 = case['spec1'], case['spec2']
@@ -261,13 +258,22 @@ def check_pair(case):
                 rec('add:dagger', 'dagger() of H1+H2 is not the conjugate transpose')
             if rec.ok('add:sort_legcharges', S.sort_legcharges) and not close(dense(S), ref):
                 rec('add:sort_legcharges', 'H1+H2 changed by sort_legcharges')
+        if name == 'H1+H2' and not fin:  # energy density of the (sorted) sum in an infinite state
+            Lc = max(s1['L'], 2)
+            psi = U.infinite_state(s1['chain'], Lc, np.random.default_rng(case['seed']))
+            m = Lc + max(U.spec_range(s1), U.spec_range(s2), 1)
+            e_ref = D.window_expval(D.imps_window(psi, 0, m), _density_operator(s1, Lc, m) + _density_operator(s2, Lc, m)) / Lc
+            for fct in ('expectation_value', 'expectation_value_TM'):
+                e = rec.guard('add:' + fct, getattr(S, fct), psi.copy())
+                if e is not None and not close(e, e_ref, 1e-8):
+                    rec('add:%s:infinite' % fct, 'energy density of H1+H2: %r, dense window %r' % (e, e_ref))
         if name == 'H1+H2' and fin and not (s1.get('charged') or s1.get('plus_hc')):
             v = U.sector_vectors(s1['chain'], s1['L'], np.random.default_rng(case['seed']), 1)[0]
             e = rec.guard('add:expectation_value', S.expectation_value, U.mps_from_vector(s1['chain'], s1['L'], v))
             if e is not None and not close(e, np.vdot(v, ref @ v)):
                 rec('add:expectation_value', 'expectation value of H1+H2: %r, dense %r' % (e, np.vdot(v, ref @ v)))
             if s1.get('all_id', True) and s2.get('all_id', True) and case.get('propagators'):
-                _second_order(rec, 'add', S, ref)
+                second_order(rec, 'add:make_U_%s', S, ref, 0.04j)
     # --- overlap, distance, equality
     kw = {} if fin else dict(understood_infinite=True) if default else dict(understood_infinite=True, num_sites=n)
     tag = ':default-num_sites' if default else ''
@@ -309,7 +315,7 @@ def check_partition(case):
     false = decided(fro2(d - dx), fro2(d) + fro2(dx), 1e-10)
     rel = fro2(d - dx) / (fro2(d) + fro2(dx))
     for first in (True, False):
-        S, X = (rec.guard('add', lambda a=a: Hr + a if first else a + Hr) for a in (H1, Hx))
+        S, X = (rec.guard('add', lambda a=a, first=first: Hr + a if first else a + Hr) for a in (H1, Hx))
         if S is None or X is None:
             continue
         for A, B, truth, name in ((H, S, True, 'H, rest+term'), (S, H, True, 'rest+term, H'), (H, X, false, 'H, rest+1.01*term'), (X, H, false, 'rest+1.01*term, H')):
@@ -639,12 +645,7 @@ def check_wflat(case):
                 if not close(D.mpo_dense(Hx)[np.ix_(perm, perm)], ref):
                     rec(name + ':dense:W', 'operator changed by %s' % name)
         if all_marks:  # (make_U_I needs IdL and IdR on the outer bonds as well, i.e. two states there)
-            errs = []
-            for t in (0.02j, 0.01j):
-                UU = rec.guard('make_U_II', H.make_U_II, t)
-                errs.append(np.nan if UU is None else float(np.abs(D.mpo_dense(UU) - scipy.linalg.expm(t * ref)).max()))
-            if UU is not None and (not np.isfinite(errs).all() or (errs[1] > 1e-11 and errs[0] / errs[1] < 3.0)):
-                rec('make_U_II:order:W', 'errors %r at t, t/2' % (errs,))
+            second_order(rec, 'make_U_%s:W', H, ref, 0.02j, ('II',))
     else:
         for Lpsi in (2, 3):
             psi = U.infinite_state(chain, Lpsi, rng)
